@@ -394,6 +394,11 @@ def run_impl(case):
             obs['raised'] = None
         except Exception as e:  # noqa
             obs['raised'] = lib.exc_name(e)
+            try:       # a candidate witness that the code does fit compressed (validated by the monitor, not trusted)
+                from pico8.game import compress as _compress
+                obs['witness'] = lib.hx(bytes(_compress.compress_code(written))) if len(written) < 30000 else None
+            except Exception:  # noqa
+                obs['witness'] = None
             if case['dest'] != 'none':
                 with open(fn, 'rb') as fh:
                     obs['dest_intact'] = fh.read() == pngref.write(160, 205, _label_rows(case['dest'], case['seed']))
@@ -528,7 +533,10 @@ def monitor_requests(case, obs):
         return ['readback %s %s' % (first, ' '.join(str(x) for x in obs['chain_last']))]
     cart = '%s %s %d' % (' '.join(obs['regs']), obs['text'], case['version'])
     if obs['raised'] is not None:
-        return ['refused ' + obs['text'], 'flag %d' % (1 if obs.get('dest_intact') else 0)]
+        reqs = ['refused ' + obs['text'], 'flag %d' % (1 if obs.get('dest_intact') else 0)]
+        if obs.get('witness'):
+            reqs.append('refusedw %s %s' % (obs['text'], obs['witness']))
+        return reqs
     reqs = ['image %s %s %s' % (cart, obs['label'], obs['out'])]
     for key in ('raw', 'back'):
         if isinstance(obs[key], str):
